@@ -161,7 +161,7 @@ pub fn property() -> Property {
         gen,
         check,
         finalize: no_finalize,
-        rule: "one evaluation = one simulated execution of the real main() with num_workers in {1,2,4,8,16} on one REUSEPORT group and 1-64 closed-loop reference clients (tasks) doing 1-5 rounds of mixed-protocol requests, under a seeded schedule strategy (uniform / sticky / starve-one), kernel distribution (flow hash or arbitrary per datagram), service-time factor 0.1x-20x and, in a third of the runs, path delay/duplication, spurious polls and postponed (stalled) worker tasks during start-up; non-trivial = at least one response sent; distinct = distinct schedule fingerprints",
+        rule: "one evaluation = one simulated execution of the real main() with num_workers in {1,2,4,8,16} on one REUSEPORT group and 1-64 closed-loop reference clients (tasks) doing 1-5 rounds of mixed-protocol requests (three in four as the project's client sends them, one in four a boundary variant: 1028/1496/1500 bytes, SRV present, several offered versions), under a seeded schedule strategy (uniform / sticky / starve-one), kernel distribution (flow hash or arbitrary per datagram), service-time factor 0.1x-20x and, in a third of the runs, path delay/duplication, spurious polls and postponed (stalled) worker tasks during start-up; non-trivial = at least one response sent; distinct = distinct schedule fingerprints",
         assumptions: &["path loss is not injected here (a closed-loop client would only wait out its timeout)", "bounded liveness: every request is answered within 1 simulated second"],
         real: REAL_F,
         stub: STUB,
